@@ -102,8 +102,13 @@ pub fn run_one(input: Vec<u8>, hex: bool) -> Value {
 /// case: {"s": [chars]} (TLC generated) or {"random": n, "len": l, "bytes": bool} (seeded random inputs)
 pub fn run(case: &Value) -> Vec<Value> {
     if let Some(sv) = case.get("s") {
-        let input: Vec<u8> = sv.as_array().unwrap().iter().flat_map(|c| c.as_str().unwrap().as_bytes().to_vec()).collect();
-        return vec![run_one(input, false)];
+        // symbols are characters or (alphabet "frag") fragments with placeholders for multi-byte characters and NUL
+        let frag = sv.as_array().unwrap().iter().any(|c| c.as_str().unwrap().len() > 1);
+        let input: Vec<u8> = sv.as_array().unwrap().iter().flat_map(|c| {
+            let x = c.as_str().unwrap();
+            if x == "~0~" { vec![0u8] } else { crate::body::concretise(x) }
+        }).collect();
+        return vec![run_one(input, frag)];
     }
     // seeded random inputs over the markup alphabet or over arbitrary bytes
     use rand::{Rng, SeedableRng};
